@@ -59,6 +59,7 @@ def check(rep: Report, ctx: Ctx) -> None:
     r513(rep, ctx)
     r514(rep, ctx)
     r515(rep, ctx)
+    r516(rep, ctx)
 
 
 # --------------------------------------------------------------------------
@@ -1238,3 +1239,15 @@ def r515(rep: Report, ctx: Ctx) -> None:
              "keep the per-path lists and the index maps of a logic block "
              "consistent", 12)
     reshape_lockstep(rep, ctx, "R5.15")
+
+
+def r516(rep: Report, ctx: Ctx) -> None:
+    """(shared with C01 R1.16-R1.19)  The block structure of the diagram is
+    the node logic: a tree node that is not translated, a block that does
+    not mirror its node, or a merge accepted at the wrong node is a block
+    that is closed in the wrong place or never."""
+    from .effspec import check_table
+    from .walkspec import TABLE
+    rep.rule("R5.16", "gate tree -> node logic -> logic block: translation, "
+             "initial block state, merge validation, Event -> Node", 28)
+    check_table(rep, ctx, "R5.16", TABLE, list(TABLE))
